@@ -283,6 +283,7 @@ type world struct {
 	fp     simcore.Hash64
 	block  uint64
 
+	sh         *shadow
 	sharedDrop bool
 	knownLeak  bool
 	faultFired bool
@@ -508,6 +509,8 @@ func (w *world) update(opi int, op Op) *simcore.Violation {
 		return viol("update-error", "op %d: Update(%s on %s) failed: %v", opi, short(root), short(parent.root), err)
 	}
 	w.db.Reference(root, common.Hash{})
+	w.sh.update(merged, storageAcct)
+	w.sh.reference(root, common.Hash{})
 	if ex := w.states[root]; ex != nil {
 		ex.refs++
 		if ex.refs > 1 {
@@ -554,6 +557,7 @@ func (w *world) apply(opi int, op Op) *simcore.Violation {
 		}
 		s := live[op.R%len(live)]
 		w.db.Reference(s.root, common.Hash{})
+		w.sh.reference(s.root, common.Hash{})
 		s.refs++
 		w.res.Probe("root-referenced-twice")
 		w.logf("ref", uint64(opi))
@@ -581,6 +585,7 @@ func (w *world) apply(opi int, op Op) *simcore.Violation {
 			}
 		}
 		w.db.Dereference(s.root)
+		w.sh.dereference(s.root)
 		s.refs--
 		w.logf("deref", uint64(opi))
 	case "cap":
@@ -697,6 +702,27 @@ func (w *world) check(opi int, op Op) *simcore.Violation {
 	if uint64(size) != recomputed || diffs != 0 {
 		return viol("size-mismatch", "op %d (%s): Size() reports (%d, %d) bytes, the %d cached nodes with their external references and metadata amount to %d", opi, op.K, uint64(diffs), uint64(size), len(st.Nodes), recomputed)
 	}
+	// 2b. a parents counter larger than every reference that could exist (each cached node
+	// refers to at most 17 children, plus external links, plus the model's root references)
+	// has wrapped or was never backed by references: the node is uncollectable.
+	refBound := uint64(17*len(st.Nodes)) + st.ChildrenSize/common.HashLength
+	for _, s := range live {
+		refBound += uint64(s.refs)
+	}
+	for _, n := range st.Nodes {
+		if uint64(n.Parents) > refBound {
+			return viol("refcount-implausible", "op %d (%s): cached node %s counts %d parents; %d cached nodes, their external links and all root references together cannot hold more than %d references: it can never be collected", opi, op.K, short(n.Hash), n.Parents, len(st.Nodes), refBound)
+		}
+	}
+	// 2c. the reference-counting model of the unchanged algorithm follows Cap/Commit by
+	// observation (they only remove entries) and is compared below to classify leftovers
+	if op.K == "cap" || op.K == "commit" {
+		w.sh.retain(st.Nodes)
+	}
+	shadowDiff := w.sh.diff(st.Nodes)
+	if shadowDiff != "" {
+		w.res.Probe("refcounts-deviate-from-unchanged-algorithm")
+	}
 	var leftover []hashdb.VerifNode
 	persisted := 0
 	for _, n := range st.Nodes {
@@ -720,10 +746,14 @@ func (w *world) check(opi int, op Op) *simcore.Violation {
 			what = fmt.Sprintf("%d roots are still referenced, none reaches it", len(live))
 		}
 		v := viol("dropped-node-still-cached", "op %d (%s): node %s (%d bytes, %d parents) is still in the dirty cache although %s (%d such nodes, %d of them already on disk)", opi, op.K, short(n.Hash), len(n.Blob), n.Parents, what, len(leftover), persisted)
-		if persisted == len(leftover) {
-			// every leftover was written to disk before: the recorded cause is a node that Cap
-			// flushed and a later Update declared again under a parent that is still cached
-			// (insert skips the parent, nobody counts or cascades to the re-inserted child)
+		if shadowDiff != "" {
+			v.Msg += "; reference counters deviate from the unchanged algorithm: " + shadowDiff
+		}
+		if persisted == len(leftover) && shadowDiff == "" {
+			// every leftover was written to disk before and every cached node carries exactly the
+			// parents counter the unchanged reference-counting algorithm produces for this
+			// history: the recorded cause (a flushed node declared again under a parent that is
+			// still cached, or linked from an older parent that Cap then evicts)
 			v.Key = "dropped-node-still-cached:reinserted-after-flush"
 		}
 		if !isKnown(v.Key) {
@@ -742,6 +772,227 @@ func (w *world) check(opi int, op Op) *simcore.Violation {
 	w.fp = w.fp.String(op.K).U64(uint64(len(live))).U64(uint64(len(st.Nodes)))
 	w.log = w.log.U64(uint64(size)).U64(uint64(len(st.Nodes)))
 	return nil
+}
+
+// rlpItems splits the payload of an RLP list into its items (raw encodings).
+// ok is false on anything malformed.
+func rlpSplit(b []byte) (payload []byte, isList bool, rest []byte, ok bool) {
+	if len(b) == 0 {
+		return nil, false, nil, false
+	}
+	c := b[0]
+	var off, n int
+	switch {
+	case c < 0x80:
+		return b[:1], false, b[1:], true
+	case c < 0xb8:
+		off, n = 1, int(c-0x80)
+	case c < 0xc0:
+		l := int(c - 0xb7)
+		if len(b) < 1+l {
+			return nil, false, nil, false
+		}
+		for _, x := range b[1 : 1+l] {
+			n = n<<8 | int(x)
+		}
+		off = 1 + l
+	case c < 0xf8:
+		off, n, isList = 1, int(c-0xc0), true
+	default:
+		l := int(c - 0xf7)
+		if len(b) < 1+l {
+			return nil, false, nil, false
+		}
+		for _, x := range b[1 : 1+l] {
+			n = n<<8 | int(x)
+		}
+		off, isList = 1+l, true
+	}
+	if n < 0 || len(b) < off+n {
+		return nil, false, nil, false
+	}
+	return b[off : off+n], isList, b[off+n:], true
+}
+
+// childHashes lists the hash references inside an encoded trie node (with
+// multiplicity), descending into embedded nodes. Written for the oracle from the
+// node format: branch = 17 items, leaf/extension = 2 items with a hex-prefix key
+// whose flag 0x20 marks a leaf.
+func childHashes(enc []byte) []common.Hash {
+	payload, isList, _, ok := rlpSplit(enc)
+	if !ok || !isList {
+		return nil
+	}
+	type item struct {
+		body []byte
+		raw  []byte
+		list bool
+	}
+	var items []item
+	for rest := payload; len(rest) > 0; {
+		body, l, r, ok := rlpSplit(rest)
+		if !ok {
+			return nil
+		}
+		items = append(items, item{body, rest[:len(rest)-len(r)], l})
+		rest = r
+	}
+	var out []common.Hash
+	ref := func(it item) {
+		if it.list {
+			out = append(out, childHashes(it.raw)...)
+		} else if len(it.body) == 32 {
+			out = append(out, common.BytesToHash(it.body))
+		}
+	}
+	switch len(items) {
+	case 17:
+		for _, it := range items[:16] {
+			ref(it)
+		}
+	case 2:
+		if key := items[0].body; len(key) > 0 && key[0]&0x20 == 0 {
+			ref(items[1]) // extension: the value is a node reference
+		}
+	}
+	return out
+}
+
+// shadow is the reference-counting bookkeeping of the unchanged hashdb algorithm
+// (insert / reference / dereference as documented in database.go), kept by the
+// harness from the same node sets. It is NOT an oracle of the property; it only
+// decides whether a leftover node is the recorded finding (counters exactly as
+// the unchanged algorithm produces them) or something else. Cap and Commit only
+// remove entries, so the shadow follows them by observation.
+type shNode struct {
+	children []common.Hash
+	external map[common.Hash]bool
+	parents  uint32
+}
+
+type shadow struct{ nodes map[common.Hash]*shNode }
+
+func (s *shadow) insert(h common.Hash, blob []byte) {
+	if _, ok := s.nodes[h]; ok {
+		return
+	}
+	n := &shNode{children: childHashes(blob)}
+	for _, c := range n.children {
+		if cn := s.nodes[c]; cn != nil {
+			cn.parents++
+		}
+	}
+	s.nodes[h] = n
+}
+
+func (s *shadow) reference(child, parent common.Hash) {
+	n := s.nodes[child]
+	if n == nil {
+		return
+	}
+	if parent == (common.Hash{}) {
+		n.parents++
+		return
+	}
+	p := s.nodes[parent]
+	if p == nil {
+		return
+	}
+	if p.external[child] {
+		return
+	}
+	if p.external == nil {
+		p.external = map[common.Hash]bool{}
+	}
+	p.external[child] = true
+	n.parents++
+}
+
+func (s *shadow) dereference(h common.Hash) {
+	n := s.nodes[h]
+	if n == nil {
+		return
+	}
+	if n.parents > 0 {
+		n.parents--
+	}
+	if n.parents == 0 {
+		delete(s.nodes, h)
+		for c := range n.external {
+			s.dereference(c)
+		}
+		for _, c := range n.children {
+			s.dereference(c)
+		}
+	}
+}
+
+// update mirrors Database.Update: storage set first, then the account set, each
+// bottom-up; then one external link per collected account leaf.
+func (s *shadow) update(merged *trienode.MergedNodeSet, storageAcct int) {
+	var owners []common.Hash
+	for o := range merged.Sets {
+		if o != (common.Hash{}) {
+			owners = append(owners, o)
+		}
+	}
+	if len(owners) > 1 {
+		simcore.Harnessf("more than one storage node set in one Update")
+	}
+	if _, ok := merged.Sets[common.Hash{}]; ok {
+		owners = append(owners, common.Hash{})
+	}
+	for _, o := range owners {
+		merged.Sets[o].ForEachWithOrder(func(path string, n *trienode.Node) {
+			if !n.IsDeleted() {
+				s.insert(n.Hash, n.Blob)
+			}
+		})
+	}
+	if set := merged.Sets[common.Hash{}]; set != nil {
+		for _, l := range set.Leaves {
+			var acc types.StateAccount
+			if err := rlp.DecodeBytes(l.Blob, &acc); err != nil {
+				simcore.Harnessf("decode account leaf: %v", err)
+			}
+			if acc.Root != types.EmptyRootHash {
+				s.reference(acc.Root, l.Parent)
+			}
+		}
+	}
+}
+
+// retain drops every shadow entry that left the dirty cache (Cap / Commit).
+func (s *shadow) retain(cached []hashdb.VerifNode) {
+	for h := range s.nodes {
+		if findNode(cached, h) == nil {
+			delete(s.nodes, h)
+		}
+	}
+}
+
+// diff describes the first disagreement between the dirty cache and the shadow.
+func (s *shadow) diff(cached []hashdb.VerifNode) string {
+	for _, n := range cached {
+		sn := s.nodes[n.Hash]
+		if sn == nil {
+			return fmt.Sprintf("node %s (%d parents) is cached, the unchanged algorithm has collected it", short(n.Hash), n.Parents)
+		}
+		if sn.parents != n.Parents {
+			return fmt.Sprintf("node %s counts %d parents, the unchanged algorithm counts %d", short(n.Hash), n.Parents, sn.parents)
+		}
+	}
+	if len(s.nodes) != len(cached) {
+		hs := make([]common.Hash, 0, len(s.nodes))
+		for h := range s.nodes {
+			if findNode(cached, h) == nil {
+				hs = append(hs, h)
+			}
+		}
+		sort.Slice(hs, func(i, j int) bool { return bytes.Compare(hs[i][:], hs[j][:]) < 0 })
+		return fmt.Sprintf("node %s is not cached, the unchanged algorithm keeps it (%d parents)", short(hs[0]), s.nodes[hs[0]].parents)
+	}
+	return ""
 }
 
 var trace = os.Getenv("VERIF_TRACE") != ""
@@ -777,7 +1028,7 @@ func run(t *testing.T, pl any) *simcore.Result {
 	}
 	db := hashdb.New(rawdb.NewDatabase(kv), &hashdb.Config{CleanCacheSize: p.Clean})
 	defer db.Close()
-	w := &world{p: p, kv: kv, db: db, states: map[common.Hash]*state{}, res: res, log: simcore.NewHash(), fp: simcore.NewHash()}
+	w := &world{p: p, kv: kv, db: db, states: map[common.Hash]*state{}, sh: &shadow{nodes: map[common.Hash]*shNode{}}, res: res, log: simcore.NewHash(), fp: simcore.NewHash()}
 	finish := func(v *simcore.Violation) *simcore.Result {
 		for _, u := range kv.Log {
 			w.log = w.log.U64(u.Seq).U64(uint64(u.Kind))
@@ -808,7 +1059,7 @@ func run(t *testing.T, pl any) *simcore.Result {
 func Checks() map[string]*simcore.Check {
 	return map[string]*simcore.Check{"C21": {
 		ID: "C21", Engine: "hashdbsim", Level: "exploration",
-		Rule: "plan = 6-40 (thorough: 6-90) operations on one real hashdb.Database over a SimKV: Update+Reference of a state derived from a live root (0-3 account changes over 12 keys with shared prefixes, 0-5 slot changes on one account over 8 slot keys and 7 values incl. embedded leaves and 32-byte values, 'make this account's storage equal to that account's' for shared storage roots, optional rewrite of an untouched key inside the trie session), extra Reference, Dereference in random order, Cap at 0-150% of the current Size, Commit of a live or dropped root; knobs: clean cache on/off, batch-size inflation 1-4000 (several batch writes per Cap/Commit). 35% of the plans are the fault configuration: the 1st-4th batch write inside a Cap/Commit fails. After every operation: each node of every live root (refmpt node set) is read through NodeReader and compared; Size() is recomputed from the cached contents; every cached node must be reachable from a live root. Non-trivial = a root was dropped while another live root shared nodes with it, or an injected write error fired; distinct = distinct sequences of (op, live roots, cached nodes).",
+		Rule: "plan = 6-40 (thorough: 6-90) operations on one real hashdb.Database over a SimKV: Update+Reference of a state derived from a live root (0-3 account changes over 12 keys with shared prefixes, 0-5 slot changes on one account over 8 slot keys and 7 values incl. embedded leaves and 32-byte values, 'make this account's storage equal to that account's' for shared storage roots, optional rewrite of an untouched key inside the trie session), extra Reference, Dereference in random order, Cap at 0-150% of the current Size, Commit of a live or dropped root; knobs: clean cache on/off, batch-size inflation 1-4000 (several batch writes per Cap/Commit). 35% of the plans are the fault configuration: the 1st-4th batch write inside a Cap/Commit fails. After every operation: each node of every live root (refmpt node set) is read through NodeReader and compared; Size() is recomputed from the cached contents; every cached node must be reachable from a live root; no parents counter may exceed the references that could exist. Non-trivial = a root was dropped while another live root shared nodes with it, or an injected write error fired; distinct = distinct sequences of (op, live roots, cached nodes).",
 		Assumptions: []string{
 			"every Update is followed by Reference(root, metaroot) as core.BlockChain does; roots that were never referenced are not modelled",
 			"one Update carries at most one storage-trie node set: with several, hashdb.Update inserts them in Go map order, which the simulator cannot seed (flush order would differ between executions of one plan)",
